@@ -57,10 +57,14 @@ pub fn cast_shapes_heightfield_shape<D: ?Sized + QueryDispatcher>(
     let cell_width = heightfield1.cell_width();
     let start_x = heightfield1.start_x();
 
+    // NOTE: the loop below advances `curr_elt` before testing a segment, so when the
+    //       shape starts outside of the heightfield we must start one cell before
+    //       the first cell (resp. one cell past the last cell), otherwise the boundary
+    //       cell is never tested.
     let mut curr_elt = if right {
-        (curr_range.end - 1).max(0)
+        (curr_range.end - 1).max(-1)
     } else {
-        curr_range.start.min(heightfield1.num_cells() as isize - 1)
+        curr_range.start.min(heightfield1.num_cells() as isize)
     };
 
     while (right && curr_elt < heightfield1.num_cells() as isize - 1) || (!right && curr_elt > 0) {
@@ -171,7 +175,8 @@ pub fn cast_shapes_heightfield_shape<D: ?Sized + QueryDispatcher>(
         }
     }
 
-    if ray.dir.y == 0.0 {
+    if ray.dir.x == 0.0 && ray.dir.z == 0.0 {
+        // Purely vertical motion: the shape never leaves the cells tested above.
         return Ok(best_hit);
     }
 
@@ -225,14 +230,16 @@ pub fn cast_shapes_heightfield_shape<D: ?Sized + QueryDispatcher>(
         curr_range_j.start += cell_diff.1;
         curr_range_j.end += cell_diff.1;
 
+        // NOTE: the ranges are half-open, so the line that just entered a range
+        //       when moving towards the positive direction is `end - 1`.
         let new_line_i = if cell_diff.0 > 0 {
-            curr_range_i.end
+            curr_range_i.end - 1
         } else {
             curr_range_i.start
         };
 
         let new_line_j = if cell_diff.1 > 0 {
-            curr_range_j.end
+            curr_range_j.end - 1
         } else {
             curr_range_j.start
         };
